@@ -456,5 +456,5 @@ func c16TripCheck(ctx *vfCtx, c c16TripCase) {
 }
 
 func init() {
-	vfRapid("C16/tripper", c16TripRule, 600, 12000, 8, c16TripGen, c16TripCheck)
+	vfRapid("C16/tripper", c16TripRule, 2500, 48000, 8, c16TripGen, c16TripCheck)
 }
